@@ -24,7 +24,18 @@ import vc2_conformance_data  # noqa: E402
 
 CSV = os.path.join(VERIF, "corpus", "codec_features.csv")
 PICTURES = [os.path.join(VERIF, "corpus", "pictures", n + ".raw") for n in ("square", "wide", "tall")]
-CODECS = ["minimal", "ld", "lossless", "frag", "fields", "c420", "asym", "customqm"]
+CODECS = ["minimal", "ld", "lossless", "frag", "fields", "c420", "asym", "customqm",
+          # several near-identical columns of the twin corpus at once: their
+          # worker commands interleave on one simulated file system
+          "twins:minimal|minimal_twin", "twins:qm_a|qm_b|minimal_pb", "twins:frag|frag2", "twins:ld|ld_pb|lossless"]
+
+
+def codec_args(codec):
+    """(csv path, --codecs regex) of a corpus column spec."""
+    if codec.startswith("twins:"):
+        return os.path.join(VERIF, "corpus", "codec_features_twins.csv"), "^(%s)$" % codec[6:]
+    return CSV, "^%s$" % codec
+
 
 from sim.workloads import swap_natural_pictures  # noqa: E402
 
@@ -86,7 +97,8 @@ def serial_tree(codec):
         swap_natural_pictures()
         fs = S.SimFS("/sim")
         fs.record = False
-        rc, out, err = run_cli(fs, [CSV, "--output", "/sim/out", "--codecs", "^%s$" % codec])
+        csvp, rx = codec_args(codec)
+        rc, out, err = run_cli(fs, [csvp, "--output", "/sim/out", "--codecs", rx])
         if rc != 0:
             raise HarnessError("serial generation failed for %s: rc=%r %s" % (codec, rc, err[-300:]))
         _SERIAL[codec] = rel_tree(fs, "/sim/out")
@@ -98,7 +110,8 @@ def parallel_commands(codec):
         swap_natural_pictures()
         fs = S.SimFS("/sim")
         fs.record = False
-        rc, out, err = run_cli(fs, [CSV, "--parallel", "--output", "/sim/out", "--codecs", "^%s$" % codec])
+        csvp, rx = codec_args(codec)
+        rc, out, err = run_cli(fs, [csvp, "--parallel", "--output", "/sim/out", "--codecs", rx])
         if rc != 0:
             raise HarnessError("--parallel failed for %s: rc=%r %s" % (codec, rc, err[-300:]))
         cmds = []
@@ -338,7 +351,8 @@ class C24(Spec):
         try:
             out = os.path.join(scratch, "out")
             hs = case["hash_seeds"]
-            rc, so, se = fresh_python(["cli", CSV, "--parallel", "--output", out, "--codecs", "^%s$" % codec], hs[0])
+            csvp, rx = codec_args(codec)
+            rc, so, se = fresh_python(["cli", csvp, "--parallel", "--output", out, "--codecs", rx], hs[0])
             if rc != 0:
                 return viol("C24/fresh/parallel-emission-failed", "cli --parallel failed in a fresh interpreter (hash seed %d): rc=%r %s" % (hs[0], rc, se[-400:]))
             codes = [l.split(" ", 1)[1].strip() for l in so.splitlines() if l.startswith("vc2-test-case-generator-worker ")]
@@ -364,7 +378,7 @@ class C24(Spec):
                 return viol("C24/fresh/tree-differs", "tree written by fresh interpreters (hash seeds %r, order seed %d) differs from the in-process serial run: %r" % (hs, case["order_seed"], diff))
             if case.get("serial_too"):
                 out2 = os.path.join(scratch, "out2")
-                rc, so, se = fresh_python(["cli", CSV, "--output", out2, "--codecs", "^%s$" % codec], hs[-1])
+                rc, so, se = fresh_python(["cli", csvp, "--output", out2, "--codecs", rx], hs[-1])
                 stats["fresh_interpreters"] += 1
                 if rc != 0:
                     return viol("C24/fresh/serial-failed", "serial cli failed in a fresh interpreter: rc=%r %s" % (rc, se[-400:]))
